@@ -57,6 +57,26 @@ void drv_c19_hist(int tier, unsigned long seed, const char *extra) {
   x++; if (MINE(sh, x)) { rec_reset("c19_hist", x, seed); callf("gmp_randinit_lc_2exp_size", 0, (uint64_t)129); callf("gmp_randinit_lc_2exp_size", 0, (uint64_t)1000); rec_quiesce(); }
 }
 /* mpn-level generators and whole-sample statistics (one event carrying all draws) */
+/* A copy (gmp_randinit_set) taken after EVERY amount of output from 0 to beyond two internal blocks of the generator (the Mersenne Twister refills
+   624 words at a time; the LC generators step once per chunk): original and copy must continue identically (the history key of MPIR.tla travels with
+   the copy, so equal calls must give equal outputs), in particular when the copy is taken exactly at a refill boundary. */
+void drv_c19_copy(int tier, unsigned long seed, const char *extra) {
+  shard_t sh = shard_parse(extra); long x = 0; int kind, pre, s;
+  for (kind = 0; kind < 3; kind++) for (pre = 0; pre <= (kind < 2 ? 1300 : 40); pre += (tier || kind == 2 ? 1 : (pre > 470 && pre < 520) || (pre > 1090 && pre < 1150) || pre < 8 ? 1 : 7)) {
+    x++; if (!MINE(sh, x)) continue;
+    if (sh.pure && x % 300) continue;
+    rec_reset("c19_copy", x, seed);
+    for (s = 0; s < 4; s++) callf("mpz_init", s);
+    init_kind(0, kind == 2 ? 2 : kind, 64); seed_state(0, (int)(x % 3));
+    if (pre) callf("mpz_urandomb", 0, 0, (uint64_t)32 * pre);       /* pre words of 32 bits drawn since seeding */
+    callf("gmp_randinit_set", 1, 0);
+    for (s = 0; s < 3; s++) { callf("mpz_urandomb", 1, 0, (uint64_t)(s == 1 ? 32 : 64)); callf("mpz_urandomb", 2, 1, (uint64_t)(s == 1 ? 32 : 64)); }
+    callf("gmp_urandomb_ui", 0, (uint64_t)17); callf("gmp_urandomb_ui", 1, (uint64_t)17);
+    callf("gmp_randclear", 0); callf("gmp_randclear", 1);
+    for (s = 0; s < 4; s++) callf("mpz_clear", s);
+    rec_quiesce();
+  }
+}
 void drv_c19_stats(int tier, unsigned long seed, const char *extra) {
   shard_t sh = shard_parse(extra); long x = 0; int kind, j, bits;
   static const uint64_t pars[] = {16, 32, 64, 128, 64, 101, 128};
